@@ -251,6 +251,12 @@ fn one_case(rng: &mut Rng, case: u64, dir: &str, plan: &Arc<Plan>) -> (String, S
         }
         let r = store.flush();
         case_text.push_str(" X");
+        // H15: after a pass, failed or not, every shard's counter is the length of its queue
+        if verdict == "ok" {
+            if let Some((i, (queue, count))) = store.verif_shard_backlog().into_iter().enumerate().find(|(_, (q, c))| q != c) {
+                verdict = format!("FAIL shard-counter-differs-from-its-queue shard={i} queued={queue} counter={count} flush={}", class(&r));
+            }
+        }
         let (tf, chunks, largest, _frag) = store.verif_free_stats();
         let snap = store.verif_snapshot();
         let mut durable: Vec<String> = Vec::new();
